@@ -137,8 +137,10 @@ impl FromStr for Allele {
             return Err(ParseError::Empty);
         }
 
-        let phasing = parse_phasing(&s[..1])?;
-        let position = parse_position(&s[1..])?;
+        // The first character may not be ASCII.
+        let (p, t) = s.split_at_checked(1).ok_or(ParseError::InvalidPhasing)?;
+        let phasing = parse_phasing(p)?;
+        let position = parse_position(t)?;
 
         Ok(Allele::new(position, phasing))
     }
